@@ -123,7 +123,9 @@ func runC14(rc *RunCtx) {
 		maxAll = 12
 	}
 	faulty := []inflowPat{patSeven, patMulti}
-	suffix := []inflowPat{patOne, patNone}
+	// two fault-free suffixes: one that brings new coins and one in which nothing arrives at all
+	// (what is owed must be paid even when no source has anything new)
+	suffixes := [][]inflowPat{{patOne, patNone}, {patNone, patNone}}
 	genesis := harness.BuildGenesis(harness.Genesis{Balances: map[string]sdk.Coins{"U1": coins(0), "U2": coins(0)}})
 	worlds := make([]*harness.World, rc.Workers)
 	var runs, nontrivial, maxCalls int64
@@ -134,12 +136,14 @@ func runC14(rc *RunCtx) {
 
 	type job struct {
 		ci      int
+		si      int // which fault-free suffix
 		fail    []int
 		partial []int // subset of fail that fails half-way
 	}
 	// first pass: fault-free twins (also gives the number of calls per configuration)
-	twins := make([]*c14Run, len(cfgs))
-	exec := func(w *harness.World, cfg dcfg, fail []int, partial []int, check bool) *c14Run {
+	twins := make([][]*c14Run, len(cfgs))
+	exec := func(w *harness.World, cfg dcfg, si int, fail []int, partial []int, check bool) *c14Run {
+		suffix := suffixes[si]
 		fb := &faultBank{Keeper: w.App.BankKeeper, fail: map[int]bool{}, partial: map[int]bool{}}
 		for _, i := range fail {
 			fb.fail[i] = true
@@ -158,7 +162,7 @@ func runC14(rc *RunCtx) {
 		srcs := cfg.sources()
 		var hist []string
 		report := func(sig, what string) {
-			rc.Violate(&explore.Violation{Property: "C14", Sig: "C14:" + sig, What: fmt.Sprintf("%s faults=%v half-way=%v: %s", cfg, fail, partial, what), Path: append([]string{}, hist...),
+			rc.Violate(&explore.Violation{Property: "C14", Sig: "C14:" + sig, What: fmt.Sprintf("%s faults=%v half-way=%v suffix=%s: %s", cfg, fail, partial, suffixName(suffix), what), Path: append([]string{}, hist...),
 				Detail: map[string]interface{}{"config": cfg, "config_str": cfg.String(), "failing_calls": fail, "half_way": partial, "calls": fb.calls}})
 		}
 		blk := func(p inflowPat, withFaults bool) {
@@ -203,22 +207,25 @@ func runC14(rc *RunCtx) {
 		r.burned = sdk.NewCoins(
 			sdk.NewCoin(harness.Denom, supply0.Add(minted.AmountOf(harness.Denom)).Sub(w.App.BankKeeper.GetSupply(ctx, harness.Denom).Amount)),
 			sdk.NewCoin(denomB, supplyB0.Add(minted.AmountOf(denomB)).Sub(w.App.BankKeeper.GetSupply(ctx, denomB).Amount)))
-		if check && twins[0] != nil {
-			// filled by caller
-		}
 		return r
 	}
 	ParallelFor(rc.Workers, len(cfgs), func(wk, ci int) {
 		if worlds[wk] == nil {
 			worlds[wk] = harness.NewWorld(genesis, harness.T0)
 		}
-		twins[ci] = exec(worlds[wk], cfgs[ci], nil, nil, true)
+		twins[ci] = make([]*c14Run, len(suffixes))
+		for si := range suffixes {
+			twins[ci][si] = exec(worlds[wk], cfgs[ci], si, nil, nil, true)
+		}
 	})
 	var jobs []job
 	// every fault set is run with all failures clean, and with every non-empty subset of them failing
 	// half-way (up to 3 failures; for larger sets: all half-way and each one alone half-way)
 	addJobs := func(js *[]job, ci int, f []int) {
-		*js = append(*js, job{ci, f, nil})
+		for si := 1; si < len(suffixes); si++ {
+			*js = append(*js, job{ci, si, f, nil}) // the other suffixes: clean failures only
+		}
+		*js = append(*js, job{ci, 0, f, nil})
 		if len(f) <= 3 {
 			for mask := 1; mask < 1<<uint(len(f)); mask++ {
 				var p []int
@@ -227,24 +234,24 @@ func runC14(rc *RunCtx) {
 						p = append(p, f[i])
 					}
 				}
-				*js = append(*js, job{ci, f, p})
+				*js = append(*js, job{ci, 0, f, p})
 			}
 			return
 		}
-		*js = append(*js, job{ci, f, f})
+		*js = append(*js, job{ci, 0, f, f})
 		for _, x := range f {
-			*js = append(*js, job{ci, f, []int{x}})
+			*js = append(*js, job{ci, 0, f, []int{x}})
 		}
 	}
 	for ci := range cfgs {
-		if twins[ci] == nil {
+		if twins[ci] == nil || twins[ci][0] == nil {
 			continue
 		}
-		n := twins[ci].calls + 1 // one more index than the twin made: a failed sweep can add later calls
+		n := twins[ci][0].calls + 1 // one more index than the twin made: a failed sweep can add later calls
 		if int64(n) > maxCalls {
 			maxCalls = int64(n)
 		}
-		for _, k := range twins[ci].kinds {
+		for _, k := range twins[ci][0].kinds {
 			kindsSeen[k]++
 		}
 		if n <= maxAll {
@@ -284,7 +291,7 @@ func runC14(rc *RunCtx) {
 			worlds[wk] = w
 		}
 		cfg := cfgs[j.ci]
-		r := exec(w, cfg, j.fail, j.partial, true)
+		r := exec(w, cfg, j.si, j.fail, j.partial, true)
 		atomic.AddInt64(&runs, 1)
 		if r == nil {
 			return
@@ -292,12 +299,12 @@ func runC14(rc *RunCtx) {
 		if r.hit > 0 {
 			atomic.AddInt64(&nontrivial, 1)
 		}
-		tw := twins[j.ci]
+		tw := twins[j.ci][j.si]
 		for acc, b := range r.bals {
 			for _, d := range []string{harness.Denom, denomB} {
 				diff := b.AmountOf(d).Sub(tw.bals[acc].AmountOf(d)).Abs()
 				if diff.GT(sdk.OneInt()) {
-					rc.Violate(&explore.Violation{Property: "C14", Sig: "C14:not-made-up:" + accKind(acc), What: fmt.Sprintf("%s faults=%v half-way=%v (%v): after the fault-free suffix %s holds %s%s, the fault-free twin %s%s", cfg, j.fail, j.partial, kindsOf(r.kinds, j.fail), acc, b.AmountOf(d), d, tw.bals[acc].AmountOf(d), d),
+					rc.Violate(&explore.Violation{Property: "C14", Sig: "C14:not-made-up:" + accKind(acc), What: fmt.Sprintf("%s faults=%v half-way=%v (%v) suffix="+suffixName(suffixes[j.si])+": after the fault-free suffix %s holds %s%s, the fault-free twin %s%s", cfg, j.fail, j.partial, kindsOf(r.kinds, j.fail), acc, b.AmountOf(d), d, tw.bals[acc].AmountOf(d), d),
 						Detail: map[string]interface{}{"config": cfg, "failing_calls": j.fail, "calls": r.kinds}})
 				}
 			}
@@ -310,7 +317,7 @@ func runC14(rc *RunCtx) {
 		}
 		if ji%(len(jobs)/5+1) == 0 {
 			mu.Lock()
-			samples = append(samples, map[string]interface{}{"config": cfg.String(), "failing_calls": j.fail, "call_kinds": kindsOf(r.kinds, j.fail), "history": "7/10/13 ; 1000a+3b/101a/5b ; [fault-free] 1/1/1 ; none"})
+			samples = append(samples, map[string]interface{}{"config": cfg.String(), "failing_calls": j.fail, "call_kinds": kindsOf(r.kinds, j.fail), "history": "7/10/13 ; 1000a+3b/101a/5b ; [fault-free] " + suffixName(suffixes[j.si])})
 			mu.Unlock()
 		}
 	})
@@ -320,8 +327,20 @@ func runC14(rc *RunCtx) {
 		"rule":    fmt.Sprintf("for each configuration the fault-free twin fixes the number n of mutating bank calls in the two faulty blocks; every non-empty subset of failing call indices is run when n+1 <= %d, otherwise every subset of size <= %d (iterative deviation bounding). Non-trivial = runs in which at least one injected fault was actually hit; each (configuration, fault set) is distinct by construction.", maxAll, bound),
 		"samples": samples, "configurations": len(cfgs), "max_calls_in_faulty_blocks": int(maxCalls), "fault_sets_by_size": perBound,
 		"bank_call_kinds_seen_in_twins": kindsSeen, "deviation_bound_completed": bound, "exhaustive": true,
+		"fault_free_suffixes": []string{suffixName(suffixes[0]), suffixName(suffixes[1]) + " (clean failures only)"},
 	}
 	rc.Assume = []string{"a failing bank call either has no side effect or (half-way failure) has moved the first denomination only, like the SDK's own bank send", "module level with a cfedistributor keeper built by the exported NewKeeper over the app's own store keys"}
+}
+
+func suffixName(ps []inflowPat) string {
+	s := ""
+	for i, p := range ps {
+		if i > 0 {
+			s += ";"
+		}
+		s += p.Name
+	}
+	return s
 }
 
 func accKind(a string) string {
